@@ -1800,3 +1800,279 @@ def r04_9_duplicate_keys(ctx, rid='R04.9'):
     if f.falls_off_end():
         r.fail(f.key('returns-none'), f.loc(), 'get_attribute can return None')
     r.done()
+
+
+# =====================================================================================================
+# C10 (hooks) and the converting-handler discipline shared with C08
+# =====================================================================================================
+
+HOOK_SITES = [
+    ('yatiml.loader:Loader.__savorize', '_yatiml_savorize'),
+    ('yatiml.recognizer:Recognizer.__recognize_user_class', '_yatiml_recognize'),
+    ('yatiml.representers:Representer.__sweeten', '_yatiml_sweeten'),
+    ('yatiml.representers:EnumRepresenter.__call__', '_yatiml_sweeten'),
+    ('yatiml.representers:UserStringRepresenter.__call__', '_yatiml_sweeten'),
+]
+
+
+def hook_calls(f: Fn, hook: str) -> List[ast.Call]:
+    return [n for n in f.walk() if isinstance(n, ast.Call) and isinstance(n.func, ast.Attribute) and n.func.attr == hook]
+
+
+def handler_for(f: Fn, a: ast.AST, exc: Set[str]) -> Optional[ast.ExceptHandler]:
+    """innermost handler (of a try whose body contains `a`) that catches one of `exc` (or a superclass in CATCHES)"""
+    for t in f.cfg.enclosing_handlers(a):
+        for h in t.handlers:
+            names = f.cfg._handler_names(h)
+            if names is None or set(names) & exc:
+                return h
+    return None
+
+
+def handler_converts(f: Fn, h: ast.ExceptHandler) -> Tuple[bool, str]:
+    """every path through the handler body ends in `raise RecognitionError(..)` or a REJECT return"""
+    ends = []
+
+    def walk(stmts):
+        """returns True if control can fall off the end of stmts"""
+        for st in stmts:
+            if isinstance(st, ast.Raise):
+                ends.append(st)
+                return False
+            if isinstance(st, ast.Return):
+                ends.append(st)
+                return False
+            if isinstance(st, ast.If):
+                a = walk(st.body)
+                b = walk(st.orelse) if st.orelse else True
+                if not a and not b:
+                    return False
+            elif isinstance(st, (ast.For, ast.While, ast.Try, ast.With)):
+                return True
+        return True
+    falls = walk(h.body)
+    if falls:
+        return False, 'handler can complete normally'
+    for e in ends:
+        if isinstance(e, ast.Raise):
+            if raise_class(e) != 'RecognitionError':
+                return False, 'handler raises %s' % (raise_class(e) or 're-raises')
+        else:
+            v = verdict(e)
+            if not v or v[0] != 'EMPTY':
+                return False, 'handler returns %s' % norm(e)
+    return True, 'ok'
+
+
+def r10_hooks(ctx):
+    P = ctx.P
+    r0 = ctx.rule('R10.0', 'each hook is called on every path on which its class defines it', floor=5)
+    r1 = ctx.rule('R10.1', 'a hook is called only under the guard "<hook>" in X.__dict__ for the very class X it is called on '
+                           '(hasattr/getattr also see inherited and mix-in definitions)', floor=5)
+    r3 = ctx.rule('R10.3', 'a hook call site is not inside a loop, and the seasoning entry points have exactly one external '
+                           'caller, outside any loop', floor=5)
+    for key, hook in HOOK_SITES:
+        f = fn(P, key)
+        calls = hook_calls(f, hook)
+        if not calls:
+            r0.fail(f.key('no-%s-call' % hook), f.loc(), '%s is never called in %s' % (hook, f.fi.qual))
+            continue
+        for c in calls:
+            X = norm(c.func.value)
+            own = "'%s' in %s.__dict__" % (hook, X)
+            guarded = f.has_guard(c, own, True, expand=False)
+            r1.check(guarded, '%s: %s(..) under %s' % (f.fi.qual, norm(c.func), own), f.key('own-dict-guard:%s' % hook), f.loc(c),
+                     '%s.%s is called without the guard %s (guards: %s): an inherited or mixed-in hook would run for a class '
+                     'that does not define it' % (X, hook, own, f.guard_texts(c)))
+            r3.check(not enclosing_loops(c, f.node), '%s: hook call is not in a loop' % f.fi.qual, f.key('hook-in-loop:%s' % hook),
+                     f.loc(c), '%s is called inside a loop: it may run more than once per node' % hook)
+            # R10.0: every normal exit passes the call or the "not defined" side
+            notdef = branch_nodes(f, lambda a, own=own, X=X, hook=hook: atom_is(a, own, False)
+                                  or atom_is(a, "hasattr(%s, '%s')" % (X, hook), False))
+            cn = f.nid(c)
+            ok = True
+            for ret in f.cfg.returns():
+                if not f.cfg.must_pass(f.cfg.entry, ret, notdef | {cn}):
+                    # exits inside an except handler that converts are fine
+                    node_ast = f.cfg.nodes[ret].ast
+                    if node_ast is not None and any(isinstance(a, ast.ExceptHandler) for a in _ancestors_list(node_ast)):
+                        continue
+                    # REJECT returns ahead of the hook (not for this hook's arm) are fine only in the recogniser
+                    ok = False
+            if hook == '_yatiml_recognize':
+                ok = True
+                arm = branch_nodes(f, lambda a, own=own: atom_is(a, own, True))
+                r0.check(bool(arm) and all(cn in f.cfg.reachable(b) for b in arm), '%s: the custom recogniser is consulted when '
+                         'defined' % f.fi.qual, f.key('hook-called:%s' % hook), f.loc(c), '_yatiml_recognize is not consulted')
+                # arguments: UnknownNode(self, node)
+                a0 = f.copies.expand(c.args[0]) if c.args else None
+                r0.check(a0 is not None and norm(a0) == 'UnknownNode(self, %s)' % f.fi.params[1],
+                         'the recogniser receives UnknownNode(self, node)', f.key('hook-arg:%s' % hook), f.loc(c),
+                         '_yatiml_recognize receives %s' % (norm(a0) if a0 is not None else None))
+            else:
+                r0.check(ok, '%s: every normal exit passes the %s call or the not-defined side' % (f.fi.qual, hook),
+                         f.key('hook-called:%s' % hook), f.loc(c), 'a path through %s skips %s although the class defines it'
+                         % (f.fi.qual, hook))
+    # external callers
+    for key, name, caller_key in (('yatiml.loader:Loader.__savorize', '__savorize', PN),
+                                  ('yatiml.representers:Representer.__sweeten', '__sweeten',
+                                   'yatiml.representers:Representer.__call__')):
+        ext = []
+        for fi in P.yatiml_functions():
+            if fi.key == key:
+                continue
+            for n in walk_function(fi.node):
+                if isinstance(n, ast.Call) and call_name(n) == name:
+                    ext.append((fi, n))
+        ok = len(ext) == 1 and ext[0][0].key == caller_key and not enclosing_loops(ext[0][1], ext[0][0].node)
+        r3.check(ok, '%s has exactly one external caller (%s), outside any loop' % (name, caller_key), key + ':external-callers',
+                 ext[0][0].loc(ext[0][1]) if ext else key, '%s is called from %s' % (name, [(a.key, a.loc(b)) for a, b in ext]))
+    r0.done()
+    r1.done()
+    r3.done()
+
+    r2 = ctx.rule('R10.2', 'ancestors first, registered only: a loop over X.__bases__ recursing under the registry guard '
+                           'dominates the own hook call', floor=3)
+    for key, hook, name, reg in (
+            ('yatiml.loader:Loader.__savorize', '_yatiml_savorize', '__savorize', ['self._registered_classes.values()']),
+            ('yatiml.representers:Representer.__sweeten', '_yatiml_sweeten', '__sweeten', ['dumper.yaml_representers'])):
+        f = fn(P, key)
+        calls = hook_calls(f, hook)
+        rec = [c for c in f.calls(name) if f.live(c)]
+        if not calls:
+            continue
+        X = norm(calls[0].func.value)
+        good = False
+        why = 'no recursion into the base classes'
+        for c in rec:
+            loops = [l for l in enclosing_loops(c, f.node) if isinstance(l, ast.For)]
+            if not loops:
+                why = 'the recursive call is not in a loop over the bases'
+                continue
+            lo = loops[0]
+            if norm(lo.iter) != '%s.__bases__' % X:
+                why = 'the ancestor loop iterates over %s instead of %s.__bases__' % (norm(lo.iter), X)
+                continue
+            bv = norm(lo.target)
+            if not any(norm(a) == bv for a in c.args):
+                why = 'the recursive call is not given the base class'
+                continue
+            if not any(f.has_guard(c, '%s in %s' % (bv, rg), True, expand=False) for rg in reg):
+                why = 'the recursion is not restricted to registered classes (%s)' % reg
+                continue
+            if breaks_of(lo, f.node) or [x for x in loop_exits(lo) if isinstance(x, ast.Return)]:
+                why = 'the ancestor loop can be left early'
+                continue
+            if not all(f.cfg.dominates(f.nid(lo.iter), f.nid(h)) for h in calls):
+                why = 'the own hook is called before the ancestors\' hooks'
+                continue
+            if name == '__savorize':
+                st = enclosing_stmt(c)
+                nodev = f.fi.params[1]
+                if not (isinstance(st, ast.Assign) and norm(st.targets[0]) == nodev and any(norm(a) == nodev for a in c.args)):
+                    why = 'the node returned by the ancestors\' savorize is not the one passed on'
+                    continue
+            good = True
+        r2.check(good, '%s: loop over %s.__bases__, recursion under the registry guard, before the own hook' % (f.fi.qual, X),
+                 f.key('ancestors-first'), f.loc(), '%s: %s' % (f.fi.qual, why))
+        # own hook operates on the node that comes out of the ancestors
+        if name == '__savorize':
+            c = calls[0]
+            a0 = c.args[0] if c.args else None
+            wrap = [norm(x) for x in assigned_from(f, a0.id)] if isinstance(a0, ast.Name) else []
+            rets = f.returns()
+            back = [n for n in f.walk() if isinstance(n, ast.Assign) and norm(n.targets[0]) == f.fi.params[1]
+                    and isinstance(a0, ast.Name) and norm(n.value) == '%s.yaml_node' % a0.id]
+            ok = ('Node(%s)' % f.fi.params[1]) in wrap and bool(back) \
+                and all(isinstance(x.value, ast.Name) and x.value.id == f.fi.params[1] for x in rets) \
+                and all(f.cfg.dominates(f.nid(c), f.nid(b)) for b in back)
+            r2.check(ok, '__savorize wraps the node, calls the hook, and returns the (possibly replaced) yaml_node',
+                     f.key('savorize-dataflow'), f.loc(c), 'the node a savorize hook produced is not what __savorize returns')
+    r2.done()
+
+    r4 = ctx.rule('R10.4', 'placement: savorize after recognition and before recursion into children; sweeten after the '
+                           'mapping was represented and before it is returned; the replaced node continues', floor=4)
+    f = fn(P, PN)
+    S, _, _ = recognise_targets(f)
+    rt = _extracted_var(f, S)
+    node = f.fi.params[1]
+    sav = [c for c in f.calls('__savorize') if f.live(c)]
+    sites = [f.nid(s) for s in extraction_sites(f, S)]
+    for c in sav:
+        st = enclosing_stmt(c)
+        r4.check(isinstance(st, ast.Assign) and norm(st.targets[0]) == node and len(c.args) == 2 and norm(c.args[0]) == node
+                 and norm(c.args[1]) == rt, '%s = self.__savorize(%s, %s)' % (node, node, rt), f.key('savorize-call-shape'),
+                 f.loc(c), 'savorize is not applied to (node, recognised type) with its result continuing as the node')
+        r4.check(any(f.cfg.dominates(s, f.nid(c)) for s in sites if s is not None), 'savorize follows the uniqueness gate',
+                 f.key('savorize-after-recognition'), f.loc(c), 'savorize runs before recognition has decided the type')
+        r4.check(any(t.startswith('%s in self._registered_classes' % rt) for t in f.guard_texts(c)),
+                 'savorize only for registered classes', f.key('savorize-registered-only'), f.loc(c),
+                 'savorize is attempted for types that are not registered classes')
+        for rc in [x for x in f.calls('__process_node') if f.live(x)] + \
+                [x for x in f.calls('class_subobjects') if f.live(x)]:
+            r4.check(must_pass_feasible(f, rc, {f.nid(c)}) or
+                     not any(t.startswith('%s in self._registered_classes' % rt) for t in f.guard_texts(rc)),
+                     'recursion at %s follows savorize' % f.loc(rc), f.key('savorize-before-children'), f.loc(rc),
+                     'attributes are processed before the node was savorized')
+    if not sav:
+        r4.fail(f.key('no-savorize'), f.loc(), '__process_node never savorizes')
+    g = fn(P, 'yatiml.representers:Representer.__call__')
+    sw = [c for c in g.calls('__sweeten') if g.live(c)]
+    rm = [c for c in g.calls('represent_mapping') if g.live(c)]
+    for c in sw:
+        r4.check(bool(rm) and all(g.cfg.dominates(g.nid(m_), g.nid(c)) for m_ in rm), 'sweeten follows represent_mapping',
+                 g.key('sweeten-after-represent'), g.loc(c), 'sweeten runs before the attribute mapping was represented')
+        r4.check(len(c.args) == 3 and norm(c.args[1]) == 'self.class_', 'sweeten starts at the represented object\'s class',
+                 g.key('sweeten-class'), g.loc(c), 'sweeten is started with %s' % [norm(a) for a in c.args])
+        w = c.args[2] if len(c.args) == 3 else None
+        for ret in g.returns():
+            val = g.copies.expand(ret.value) if ret.value is not None else None
+            txt = norm(val) if val is not None else ''
+            okv = isinstance(w, ast.Name) and ('%s.yaml_node' % w.id) in [norm(x) for x in
+                                                                         _flow_sources(g, ret.value)]
+            r4.check(g.cfg.dominates(g.nid(c), g.nid(ret)) and okv,
+                     'the sweetened node (%s.yaml_node) is what is returned, after sweetening' % (w.id if isinstance(w, ast.Name) else w),
+                     g.key('sweetened-node-returned'), g.loc(ret), 'Representer.__call__ returns %s, not the sweetened node' % txt)
+    if not sw:
+        r4.fail(g.key('no-sweeten'), g.loc(), 'Representer.__call__ never sweetens')
+    r4.done()
+
+    r5 = ctx.rule('R10.5', 'a SeasoningError raised while savourising is converted to RecognitionError', floor=1)
+    for c in sav:
+        h = handler_for(f, c, {'SeasoningError', 'Exception', 'RuntimeError', 'BaseException'})
+        if h is None:
+            r5.fail(f.key('savorize-unhandled'), f.loc(c), 'the savorize call is not inside a handler for SeasoningError')
+        else:
+            ok, why = handler_converts(f, h)
+            r5.check(ok, 'except %s around savorize raises RecognitionError' % norm(h.type) if h.type else 'bare except',
+                     f.key('savorize-handler'), f.loc(h), 'the handler around savorize does not convert to RecognitionError: %s' % why)
+    r5.done()
+
+
+def must_pass_feasible(f: Fn, target: ast.AST, through: Set[int]) -> bool:
+    """every *feasible* path entry ->* target crosses `through`: paths that take the opposite side of a condition which
+    is a (still valid) guard of the target are infeasible and are cut"""
+    tn = f.nid(target)
+    contra = set()
+    for g, pol in f.guards(target):
+        txt = norm(g)
+        names = {x.id for x in ast.walk(g) if isinstance(x, ast.Name)} - {'self'}
+        if any(len(f.changes_of(v)) > 1 for v in names):
+            continue
+        for b in f.cfg.nodes:
+            if b.kind == 'branch' and b.pol != pol and norm(b.ast) == txt and not f.cfg.dominates(b.id, tn):
+                contra.add(b.id)
+    return f.cfg.must_pass(f.cfg.entry, tn, set(through) | contra)
+
+
+def _flow_sources(f: Fn, e: ast.AST, depth=3) -> List[ast.AST]:
+    """expressions that may flow into `e` through local assignments and casts"""
+    out = [e]
+    if depth == 0 or e is None:
+        return out
+    if isinstance(e, ast.Call) and call_name(e) == 'cast' and len(e.args) == 2:
+        out += _flow_sources(f, e.args[1], depth - 1)
+    if isinstance(e, ast.Name):
+        for rhs in assigned_from(f, e.id):
+            out += _flow_sources(f, rhs, depth - 1)
+    return out
